@@ -139,7 +139,7 @@ contract(LST + '._generate_bytecode_line_string', props=['C16'], assumed=True,
 contract(LST + '._print_line_object', props=['C16'], blocks_only=True,
          params={'output': 'sio'}, locals={'line_bytes': 'list[str]?'},
          blocks={'bytes-column': dict(
-             where='body[0:1]', locals={},
+             where='from:line_bytes = :1', locals={},
              requires=[],
              ensures=[
                  # machine code is shown exactly for lines whose bytes are part of the memory contents ...
